@@ -152,6 +152,7 @@ package message
 //@   ensures ncalls("(*Message).Ack") + ncalls("(*Message).Nack") == old(ncalls("(*Message).Ack") + ncalls("(*Message).Nack")) + 1 [router-settles-exactly-once]
 //@   ensures calls(P) == old(calls(P)) + 1 ==> (forall j int :: 0 <= j && j < len(arg(P, 1, old(calls(P)))) ==> stamped(h, arg(P, 1, old(calls(P)))[j].ctx)) [outputs-carry-handler-context]
 //@   ensures wgtoken(h.runningHandlersWg) == 0 [done-once]
+//@   modifies field(Message.ctx)
 //@   assert @call:(*Message).Ack: !handlerFailed(calls(H) - 1) && (len(ret(H, 0, calls(H) - 1)) == 0 || (calls(P) >= 1 && !panicked(P, calls(P) - 1) && ret(P, 0, calls(P) - 1) == nil)) [ack-after-successful-publish]
 
 // ---- router context values (C08, used by C13) ----
